@@ -67,8 +67,37 @@ def _work(args):
         shutil.rmtree(tmp, ignore_errors=True)
 
 
+def proved_part(tier, seed):
+    """RT_T discharged deductively for the fixed-size classes (ints / bools / enums, nested fixed
+    structs, literal-length arrays): emitted deserialize executed over the interpreted WIRE_T bytes"""
+    pipe = e2.run_pipeline(("roundtrip",), tier, seed, repo.REPO)
+    obligations = discharged = classes = 0
+    bad = []
+    for task, out in pipe["results"]:
+        if out.get("crash"):
+            return 3, {"error": out["generator_error"][:500]}
+        names = set()
+        for ob in out["obligations"]:
+            name, kind, fn, status, backend, dt, info, model = ob
+            obligations += 1
+            names.add(fn)
+            if status == "unsat":
+                discharged += 1
+            else:
+                top = fn.split(".")[0]
+                bad.append({"spec": out["idents"].get(top, "realistic:" + top), "class": fn.rsplit(".", 1)[0],
+                            "obligation": name, "status": status, "why": info.get("why"), "counter_model": model})
+        classes += len(names)
+    return (1 if any(b["status"] == "sat" for b in bad) else (2 if bad else 0)), \
+        {"classes_proved": classes, "obligations": obligations, "discharged": discharged, "open": bad[:10]}
+
+
 def run(tier, seed):
     t0 = time.time()
+    prc, proved = proved_part(tier, seed)
+    if prc == 3:
+        print("CHECKER-ERROR property=C01 " + str(proved))
+        return 3
     specs = e2.select_specs(tier, seed)
     accept = [(i, b) for i, b in specs if e2.classify(b)[0] == "ok"]
     budget = 40 if tier == "quick" else 400
@@ -83,6 +112,9 @@ def run(tier, seed):
         print("CHECKER-ERROR property=C01 " + crashes[0][:600])
         return 3
     failures = [f for o in outs for f in o["failures"]]
+    for b in proved["open"]:
+        failures.append({"kind": "roundtrip-obligation-" + b["status"], "property": "C01", "spec": b["spec"], "class": b["class"],
+                         "obligation": b["obligation"], "why": b["why"], "counter_model": b["counter_model"]})
     evals = sum(o["evaluations"] for o in outs)
     classes = sum(o["classes"] for o in outs)
     indom = sum(o["in_domain"] for o in outs)
@@ -95,11 +127,14 @@ def run(tier, seed):
                                "deserialized with a fresh EoReader, compared field by field, remaining == 0, byte_size == "
                                "len(bytes); distinct = objects generated (seeded; duplicates possible, not deduplicated)",
                        "samples": [s for o in outs for s in o["samples"]][:8] or [{"note": "none"}],
-                       "classes": classes, "classes_in_domain": indom, "programs": len(accept) + 1, "bounded": True},
+                       "classes": classes, "classes_in_domain": indom, "programs": len(accept) + 1, "bounded": True,
+                       "proved_for_fixed_size_classes": proved},
           "assumptions": ["bounded stand-in, not a proof", "xmlsem.c01_domain is a conservative reading of 'wire-unambiguous'"],
           "wall_s": round(time.time() - t0, 2), "violations": len(failures)}
     with open(os.path.join(VERIF, "evidence", "C01.json"), "w") as f:
         json.dump(ev, f, indent=1, default=str)
+    print(f"C01 [proved part]: RT_T discharged for {proved['classes_proved']} fixed-size classes "
+          f"({proved['discharged']}/{proved['obligations']} obligations)")
     print(f"C01: {evals} objects round-tripped over {indom} in-domain classes of {classes} ({len(accept) + 1} programs), "
           f"{len(failures)} failures (bounded stand-in), {round(time.time() - t0, 1)} s")
     if failures:
